@@ -28,6 +28,7 @@ import weakref
 from collections.abc import Callable
 from typing import (
     Any,
+    ForwardRef,
     get_args,
     get_type_hints,
     NoReturn,
@@ -407,19 +408,31 @@ def jaxtyped(fn=_sentinel, *, typechecker=_sentinel):
                     )
             except NameError:
                 # Best-effort attempt to destringify annotations.
-                pass
-            else:
-                new_params = []
-                for p_name, p_value in full_signature.parameters.items():
-                    p_annotation = destring_annotations.get(p_name, p_value.annotation)
-                    p_value = p_value.replace(annotation=p_annotation)
-                    new_params.append(p_value)
-                return_annotation = destring_annotations.get(
-                    "return", full_signature.return_annotation
-                )
-                full_signature = full_signature.replace(
-                    parameters=new_params, return_annotation=return_annotation
-                )
+                # A forward reference that cannot be resolved and that is nested inside
+                # another annotation (`Optional["Local"]`) could not be resolved by the
+                # typechecker either, which would then reject every call: do not check
+                # such an annotation. (A whole-string annotation is left to the
+                # typechecker, as before.)
+                annotations = {
+                    k: v.annotation for k, v in full_signature.parameters.items()
+                }
+                annotations["return"] = full_signature.return_annotation
+                destring_annotations = {
+                    k: Any
+                    for k, v in annotations.items()
+                    if not isinstance(v, str) and _has_forward_reference(v)
+                }
+            new_params = []
+            for p_name, p_value in full_signature.parameters.items():
+                p_annotation = destring_annotations.get(p_name, p_value.annotation)
+                p_value = p_value.replace(annotation=p_annotation)
+                new_params.append(p_value)
+            return_annotation = destring_annotations.get(
+                "return", full_signature.return_annotation
+            )
+            full_signature = full_signature.replace(
+                parameters=new_params, return_annotation=return_annotation
+            )
 
             param_signature = full_signature.replace(return_annotation=Any)
             name = getattr(fn, "__name__", "<no name found>")
@@ -733,6 +746,12 @@ def _make_argpiece(p, name_to_annotation, name_to_default):
         return f"{p.name}: {name_to_annotation[p.name]}"
     else:
         return f"{p.name}: {name_to_annotation[p.name]} = {name_to_default[p.name]}"
+
+
+def _has_forward_reference(annotation, _nested=False):
+    if isinstance(annotation, ForwardRef) or (_nested and isinstance(annotation, str)):
+        return True
+    return any(_has_forward_reference(a, True) for a in get_args(annotation))
 
 
 def _decorating_namespace():
